@@ -52,7 +52,9 @@ static void SbInitOnce()
 	  << "object Host \"sbh\" { import \"sbtmpl\"\n  enable_active_checks = false\n  address = \"127.0.0.1\"\n"
 	  << "  vars.arr = [ 1, 2 ]\n  vars.dict = { k = \"v\" }\n  vars.os = \"linux\" }\n"
 	  << "object Service \"sbs\" { host_name = \"sbh\"\n  check_command = \"sbcmd\"\n  enable_active_checks = false }\n"
-	  << "object ApiUser \"sbu\" { password = \"" << SB_PASSWORD << "\"\n  permissions = [ \"*\" ] }\n";
+	  << "object ApiUser \"sbu\" { password = \"" << SB_PASSWORD << "\"\n  permissions = [ \"*\" ] }\n"
+	  // a user whose permission carries a FILTER: FilteredAddTarget then evaluates the permission filter before the user's
+	  << "object ApiUser \"sbu2\" { password = \"" << SB_PASSWORD << "\"\n  permissions = [ { permission = \"objects/query/Host\", filter = {{ host.name == \"sbh\" }} } ] }\n";
 	LoadConfig(c.str());
 	ScriptGlobal::Set("sbmark", new Function("sbmark", SbMarkFn, {}, true));
 	std::ofstream f(ScratchDir() + "/data/sbfile.txt");
@@ -290,14 +292,14 @@ static std::map<std::string, SbFn> LiveFunctions(bool printTypes)
 // ------------------------------------------------------------------ probes
 struct SbResult { std::string res; std::string text; bool truthy = false; };
 
-static SbResult RunFilter(const std::string& code)
+static SbResult RunFilter(const std::string& code, bool withPermissionFilter = false)
 {
 	SbResult r;
 	QueryDescription qd;
 	qd.Types.insert("Host");
 	qd.Permission = "objects/query/Host";
 	Dictionary::Ptr query = new Dictionary({ { "type", "Host" }, { "filter", String(code) } });
-	ApiUser::Ptr user = ApiUser::GetByName("sbu");
+	ApiUser::Ptr user = ApiUser::GetByName(withPermissionFilter ? "sbu2" : "sbu");
 	try {
 		std::vector<Value> objs = FilterUtility::GetFilterTargets(qd, query, user);
 		r.res = "ok";
@@ -379,6 +381,7 @@ VOP(sb_probe)
 	SbResult r;
 	l_SbMarkHit = false;
 	if (mode == "filter") r = RunFilter(code);
+	else if (mode == "filterperm") r = RunFilter(code, true);
 	else if (mode == "event") r = RunEvent(code, false);
 	else if (mode == "inbox") r = RunEvent(code, true);
 	else r = RunConsole(code, session);
